@@ -236,7 +236,7 @@ func c01(c *Ctx) {
 		for _, s := range callsNamed(p, "", nm) {
 			nset++
 			R.Check("C01.sinks", R.Key("C01.sinks", shortFn(s.Fn), "call:"+nm), c.sitePos(p, s), "badger write "+nm+" in "+fname(s.Fn),
-				top(s.Fn) == a.store, "the VAA store may only be written by StoreSignedVAA")
+				top(s.Fn) == a.store || inFuncs(withAnon(a.store), s.Fn), "the VAA store may only be written by StoreSignedVAA")
 		}
 	}
 	R.Floor("C01.sinks.badger-write", nset, 1)
@@ -468,6 +468,11 @@ func resolveSpill(v ssa.Value) ssa.Value {
 		u, ok := v.(*ssa.UnOp)
 		if !ok || u.Op != token.MUL {
 			return v
+		}
+		// a field of the receiver of a method value bound to a local struct
+		if rv := receiverField(v); rv != nil {
+			v = rv
+			continue
 		}
 		al, ok := u.X.(*ssa.Alloc)
 		if fv, isFV := u.X.(*ssa.FreeVar); isFV {
@@ -805,4 +810,13 @@ func cellOfFreeVar(fv *ssa.FreeVar, depth int) *ssa.Alloc {
 		}
 	})
 	return out
+}
+
+func inFuncs(fs []*ssa.Function, f *ssa.Function) bool {
+	for _, g := range fs {
+		if g == f {
+			return true
+		}
+	}
+	return false
 }
